@@ -155,7 +155,16 @@ const FHOSTS: &[&str] = &[
     "o.com", ".com", "foo.", "example.com", "example", "ple.com", "co.uk", "example.co.uk", "a", ".", "", "a.b", "b.example", "x.com",
     "net.ads", "t", "s", "http", "www.foo.com", "d", "ads.n",
 ];
+/// Strings over a three-letter alphabet: periodic and self-overlapping hosts (`b.b` in `xb.b.b`,
+/// `ab.ab` in `cab.ab.ab`), where the next occurrence starts inside the rejected one.
+fn tiny(r: &mut Rng, lo: usize, hi: usize) -> String {
+    let n = r.range(lo, hi);
+    (0..n).map(|_| r.pick(&['a', 'b', '.', 'a', 'b'])).collect()
+}
 fn req_host(r: &mut Rng) -> String {
+    if r.chance(1, 5) {
+        return tiny(r, 2, 10);
+    }
     let base = r.pick(gen::HOSTS);
     let h = r.pick(FHOSTS);
     match r.below(10) {
@@ -170,6 +179,11 @@ fn req_host(r: &mut Rng) -> String {
     }
 }
 fn filter_host(r: &mut Rng, host: &str) -> String {
+    if host.bytes().all(|c| c == b'a' || c == b'b' || c == b'.') {
+        if r.chance(2, 3) {
+            return tiny(r, 1, 4);
+        }
+    }
     match r.below(8) {
         0 | 1 => (r.pick(FHOSTS)).to_string(),
         2 => {
@@ -490,10 +504,38 @@ fn main() {
     }
 
     // ---------------- A: hostname anchoring
-    let n_a = 450 * a.scale;
-    for _ in 0..n_a {
-        let host = req_host(&mut r);
-        let fh = filter_host(&mut r, &host);
+    let n_a = 900 * a.scale;
+    for ia in 0..n_a {
+        let (host, fh) = if ia % 3 == 0 {
+            // tiny alphabet, filter host occurring at least twice in the request host (overlapping
+            // occurrences count): every candidate position of the scan loop is exercised
+            let mut best = (tiny(&mut r, 4, 9), tiny(&mut r, 1, 4));
+            if r.chance(1, 2) {
+                // periodic hosts: filter host = k repetitions of a unit joined by '.', request host = an
+                // optional glued / dotted prefix, m >= k repetitions, an optional glued / dotted suffix
+                let u = r.pick(&["a", "b", "ab", "a.b", "ads"]);
+                let k = r.range(2, 3);
+                let m = r.range(k, k + 2);
+                let fh = vec![u; k].join(".");
+                let host = format!("{}{}{}", r.pick(&["", "x", "x.", "b", ".", "ab"]), vec![u; m].join("."), r.pick(&["", "", "x", ".x", ".com", "a"]));
+                best = (host, fh);
+            } else {
+            for _ in 0..60 {
+                let fh = tiny(&mut r, 1, 4);
+                let host = tiny(&mut r, 4, 9);
+                let occ = (0..host.len()).filter(|i| host[*i..].starts_with(&fh)).count();
+                if occ >= 2 {
+                    best = (host, fh);
+                    break;
+                }
+            }
+            }
+            best
+        } else {
+            let host = req_host(&mut r);
+            let fh = filter_host(&mut r, &host);
+            (host, fh)
+        };
         let w = r.chance(1, 4);
         let e = r.chance(1, 3);
         let got = matchers::anchored_hostname_end(&fh, &host, w, e);
@@ -506,7 +548,20 @@ fn main() {
         if !fh.is_empty() && host.matches(&fh).count() > 1 {
             cs.stat("A_multiple_occurrences");
         }
+        if !fh.is_empty() && (0..host.len()).filter(|i| host[*i..].starts_with(&fh)).count() > host.matches(&fh).count() {
+            cs.stat("A_overlapping_occurrences");
+        }
         cs.case(expr, json!({"what": "anchored_hostname_end", "filter_hostname": fh, "hostname": host, "wildcard": w, "at_hostname_end": e, "impl": got}), occ);
+        // the same pair at rule level (||fh^ , ||fh/x against https://host/x): a failing input of the
+        // property itself when the scan loop is wrong
+        if !fh.is_empty() && !fh.starts_with('.') && !fh.ends_with('.') && !fh.contains("..") && !host.starts_with('.') && !host.ends_with('.') && !host.contains("..") {
+            for (rule, url) in [(format!("||{}^", fh), format!("https://{}/x", host)), (format!("||{}/x", fh), format!("http://{}/x", host))] {
+                if let Ok(ev) = eval(&rule, &url) {
+                    cs.stat("A_rule_level_oracle");
+                    oracle(&mut sm, &mut ostats, &rule, &url, &ev);
+                }
+            }
+        }
         // get_url_after_anchor on a URL carrying that host
         let cred = r.pick(&["", "", "", "u@", "u:p@", "ads.net@", "t@"]);
         let url = format!("{}://{}{}{}", r.pick(&["https", "http", "https", "s", ""]), cred, host, r.pick(PATHS)).to_ascii_lowercase();
